@@ -1267,3 +1267,114 @@ func fieldOfConfig(c *core.Ctx, v ssa.Value) bool {
 	}
 	return false
 }
+
+func init() {
+	register(&Rule{ID: "SH-RANGE-HDR", Floor: 7,
+		Doc: "every Range header an upload handler writes reports the bytes received: its value is formatted from the session's Size() minus one (end offsets are inclusive), at every site alike (sibling agreement of the status, chunk and refusal answers)",
+		Run: func(c *core.Ctx) {
+			r := requireRoles(c)
+			if r == nil {
+				return
+			}
+			// a number reported after bytes were written into the session is read after that write
+			staleAt := func(fn *ssa.Function, site ssa.Instruction, size *ssa.Call) bool {
+				stale := false
+				an.Calls(fn, func(w ssa.CallInstruction) {
+					if isSessionWrite(r, w) && an.Reaches(w, site) && !an.Reaches(w, size) {
+						stale = true
+					}
+				})
+				return stale
+			}
+			n := 0
+			for _, fn := range serverFuncs(c) {
+				k := 0
+				an.Calls(fn, func(call ssa.CallInstruction) {
+					if !an.IsMethod(call, "net/http", "Header", "Add") && !an.IsMethod(call, "net/http", "Header", "Set") {
+						return
+					}
+					_, args := an.CallArgs(call)
+					if len(args) != 2 {
+						return
+					}
+					key, ok := an.ConstString(args[0])
+					if !ok || !strings.EqualFold(key, "range") {
+						return
+					}
+					n++
+					k++
+					okey := fmt.Sprintf("range:%s#%d", kn(c.P.FuncName(fn)), k)
+					sp, _ := an.CallOf(args[1])
+					if sp == nil || !an.IsFunc(sp, "fmt", "Sprintf") || len(sp.Call.Args) != 2 {
+						c.Undecided(okey, call.Pos(), "the Range header written at %s is not built by a single Sprintf", c.P.Pos(call.Pos()))
+						return
+					}
+					vals := orderedVariadic(sp.Call.Args[1])
+					good := false
+					if len(vals) == 1 {
+						v := an.Strip(vals[0])
+						if mi, ok := v.(*ssa.MakeInterface); ok {
+							v = an.Strip(mi.X)
+						}
+						if bo, ok := v.(*ssa.BinOp); ok && bo.Op == token.SUB {
+							if one, isC := an.ConstInt(bo.Y); isC && one == 1 {
+								if sz, _ := an.CallOf(an.Origin(bo.X)); sz != nil && r.IsAPI(sz, "BlobCreator", "Size") {
+									good = !staleAt(fn, call, sz)
+								}
+							}
+						}
+					}
+					c.Check(good, okey, call.Pos(), "the Range header written at %s reports ‘0-’ + (session Size() − 1), read after any write of this request: %v — any other value tells the client a different number of bytes than the session holds", c.P.Pos(call.Pos()), good)
+				})
+			}
+			if n == 0 {
+				c.Unresolved("range-headers", "no Range header written by the handlers")
+			}
+			// the state token handed out with a Location carries the same number: every state value that is marshalled
+			// has its Offset set to the session's Size() (or to the constant 0 of a session just created)
+			for _, fn := range serverFuncs(c) {
+				k := 0
+				an.Calls(fn, func(call ssa.CallInstruction) {
+					if !an.IsFunc(call, "encoding/json", "Marshal") || len(call.Common().Args) != 1 {
+						return
+					}
+					mi, ok := call.Common().Args[0].(*ssa.MakeInterface)
+					if !ok {
+						return
+					}
+					st, ok := mi.X.Type().Underlying().(*types.Struct)
+					if !ok || st.NumFields() == 0 {
+						return
+					}
+					hasOffset := false
+					for i := 0; i < st.NumFields(); i++ {
+						if st.Field(i).Name() == "Offset" {
+							hasOffset = true
+						}
+					}
+					if !hasOffset || core.FuncPkgPath(fn) != c.P.Module {
+						return
+					}
+					if nt := an.NamedOf(mi.X.Type()); nt == nil || nt.Obj().Pkg() == nil || nt.Obj().Pkg().Path() != c.P.Module {
+						return
+					}
+					k++
+					okey := fmt.Sprintf("state:%s#%d", kn(c.P.FuncName(fn)), k)
+					vals := structStores(an.Strip(mi.X))["Offset"]
+					good := len(vals) == 1
+					for _, v := range vals {
+						if z, isC := an.ConstInt(v); isC && z == 0 {
+							continue
+						}
+						if sz, _ := an.CallOf(an.Origin(v)); sz != nil && r.IsAPI(sz, "BlobCreator", "Size") {
+							if !staleAt(fn, call, sz) {
+								continue
+							}
+						}
+						good = false
+					}
+					c.Check(good, okey, call.Pos(), "the state token marshalled at %s carries Offset = the session's Size() (or 0 for a new session): %v — the next chunk is checked against that number", c.P.Pos(call.Pos()), good)
+				})
+			}
+		}})
+}
